@@ -70,7 +70,7 @@ def slice_assumptions(obl):
     return keep
 
 
-def check_z3(obl, rlimit, timeout_ms=600000, assumptions=None, opts=None):      # the resource limit is the real (deterministic) bound; the wall-clock limit is a safety net sized for a fully loaded machine
+def check_z3(obl, rlimit, timeout_ms=240000, assumptions=None, opts=None):      # the resource limit is the real (deterministic) bound; the wall-clock limit is a safety net sized for a fully loaded machine
     s = z3.Solver()
     s.set('rlimit', rlimit)
     s.set('timeout', timeout_ms)
